@@ -168,6 +168,17 @@ register("C12", "other",
          TB + "CPython evaluation of the constexpr body is an external parameter; constexpr children that exceed the transpiler's own 1 s timeout on a loaded machine are skipped and counted.",
          "Lean 4 proof for the rejection scan + literal-substitution comparison on the real transpiler", "DESIGN.md §4 C12")
 
+register("C10", "other",
+         "Partial. Proved in Lean over models of the outer shell: verdict_total — whatever the passes do (return, CompilerError, syntax error, any other exception) the try/except skeleton yields a dictionary "
+         "with exactly one of code / error and an error carries a non-empty description; prelude_total — the directive scan is a total function; no_child_left / runaway_is_error — in every path of a constexpr "
+         "evaluation (child finishes with any status, prints garbage, or never finishes) the helper interpreter is reaped, or killed and reaped, before the evaluation returns or raises. That CPython executes "
+         "the passes in bounded time cannot be a theorem: it is observed. The harness submits a malformed-input stream to the real compile_code — a hostile list (runaway / failing / printing constexpr, "
+         "recursion, unsupported constructs, huge numbers, NUL, BOM, deep nesting), every prefix of shipped programs, token and byte mutations, odd option values, module dicts — and requires for every input: no "
+         "exception, return within 10 s, code with statistics consistent with the text or error with description and a position inside the submitted text, and no child process of the harness left afterwards. "
+         "F-C10-a (runaway constexpr child left running) was repaired by a fix: commit.",
+         TB + "termination and timing of CPython and OS process state are observed, not proved.",
+         "Lean 4 proofs over the exception-flow and child-process models + fault enumeration on the real entry point", "DESIGN.md §4 C10")
+
 ALL = [f"C{i:02d}" for i in range(1, 19)]
 
 
